@@ -15,6 +15,13 @@ CHECKS = {
         'construction histories, options); an oracle evaluates the round-trip laws directly on the implementation.',
    note=TB + 'Modelled, not verified: C++ reference counting, struct-sequence unnamed fields, keys outside the key universe (NaN, hash-equal cross-type keys).',
    design='§7 C01'),
+ 'C02': dict(
+   technique='Coq proof (insertion sort is the unique sorted permutation under a strict total order on comparable keys) + extracted-model correspondence incl. exhaustive insertion permutations of small dicts',
+   text='Theorems: the key sort always returns a permutation; for pairwise comparable keys it is sorted by < and independent of the insertion order, hence two dicts with the same items in different insertion orders flatten to the same leaves and to treespecs == cannot distinguish; '
+        'when neither sort applies the keys stay in insertion order; OrderedDict is always visited in insertion order; a true predicate makes a leaf before any registry lookup; an unregistered class is a leaf; namespace registrations shadow global ones; None is a childless node unless none_is_leaf. '
+        'The run compares flatten/with_path/iterator with the model on every insertion permutation of dicts with up to 4 (thorough: 5) keys over nine key-mix classes (sortable, mixed, stage-2, unsortable, with None, tuples) in both dict-order modes, plus random dict-heavy trees; oracles check insertion-order independence, the none_is_leaf law and predicate idempotence on the implementation.',
+   note=TB + 'PARTIAL: insertion-order independence is proved for stage 1 (pairwise comparable keys); for stage 2 (mixed types sorted by (type name, key)) it is covered by the exhaustive permutation run, not by a theorem. The ranking of type names is a model parameter checked against the real class names by the run. Keys outside the key universe are not modelled.',
+   design='§7 C02'),
  'C03': dict(
    technique='Coq proof (induction on the depth budget, agenda lemma for the iterator) + extracted-model correspondence + all-pairs oracle on 8 entry points',
    text='Theorems: flatten_with_path succeeds exactly when flatten does with the identical leaves and treespec (both directions); the paths it returns are the treespec\'s own paths; '
